@@ -438,21 +438,24 @@ pub fn row_matches(shown: &Row, reference: &Row) -> bool {
         && num_shown_matches(&shown.dist, reference.vals.map(|v| v.2))
 }
 
-/// the rows on screen are a contiguous window of the tracker's table (a long table scrolls with
-/// the selection; without a selection the window starts at the first row)
-pub fn window_match(shown: &[Row], reference: &[Row], selected: bool) -> bool {
+/// the rows on screen show tracker records: every row matches the record of its address, no
+/// address twice, and nothing that is not tracked. (The statement does not fix the row order, nor
+/// which rows a long, scrolled table shows.)
+fn rows_are_records(shown: &[Row], reference: &[Row]) -> bool {
+    let mut seen = std::collections::BTreeSet::new();
+    shown.iter().all(|r| seen.insert(r.icao.clone()) && reference.iter().find(|x| x.icao == r.icao).map(|x| row_matches(r, x)).unwrap_or(false))
+}
+
+/// more aircraft than fit on the page: the visible rows are a subset of the records
+pub fn window_match(shown: &[Row], reference: &[Row], _selected: bool) -> bool {
     if shown.len() >= reference.len() {
         return tables_match(shown, reference);
     }
-    if shown.is_empty() {
-        return false;
-    }
-    let last = if selected { reference.len() - shown.len() } else { 0 };
-    (0..=last).any(|o| shown.iter().zip(reference[o..].iter()).all(|(a, b)| row_matches(a, b)))
+    !shown.is_empty() && rows_are_records(shown, reference)
 }
 
 pub fn tables_match(shown: &[Row], reference: &[Row]) -> bool {
-    shown.len() == reference.len() && shown.iter().zip(reference.iter()).all(|(a, b)| row_matches(a, b))
+    shown.len() == reference.len() && rows_are_records(shown, reference)
 }
 
 pub fn table_of(a: &Airplanes) -> Vec<Row> {
